@@ -405,6 +405,33 @@ theorem create_tokens_sorted_and_exact {cur : CMarket} {plen slen : Nat} {accs :
     · exact Or.inl (Or.inr ⟨m, hm, hy⟩)
     · exact Or.inr ⟨m, hm, hy⟩
 
+/-- the `MAX_TOKENS` bound of `validate_and_init` is never the reason for a rejection: with at most
+ten steps in total, two accepted sides produce at most `2·10 + 2 + 3 = 25` tokens (every step adds
+its index token and at most one new side token, every side at most one new input token, the
+current market three) — so the fixed `tokens` array of `SwapActionParams` cannot overflow and no
+well-formed path is refused for its token count -/
+theorem create_token_bound_never_fires {cur : CMarket} {plen slen : Nat} {accs : List CMarket}
+    {tinP tinS toutP toutS : Nat} {t1 t2 p s : List Nat}
+    (hl : plen + slen ≤ maxSteps)
+    (hp : validatePath (cur.addTokens []) (accs.take plen) tinP toutP = some (t1, p))
+    (hs : validatePath t1 ((accs.drop plen).take slen) tinS toutS = some (t2, s)) :
+    t2.length ≤ maxTokens := by
+  obtain ⟨_, e1⟩ := create_path_tokens hp
+  obtain ⟨_, e2⟩ := create_path_tokens hs
+  have c1 := ((create_path_accepted_iff _ _ _ _).mp ⟨_, hp⟩).2.2
+  have c2 := ((create_path_accepted_iff _ _ _ _).mp ⟨_, hs⟩).2.2
+  have s0 : (cur.addTokens []).Pairwise (· < ·) := addTokens_sorted _ _ List.Pairwise.nil
+  have s1 : t1.Pairwise (· < ·) := e1 ▸ foldTokens_sorted _ _ s0
+  have b0 := addTokens_length_le cur []
+  have b1 := foldTokens_length_side (accs.take plen) (cur.addTokens []) tinP s0 (by rw [c1]; simp)
+  have b2 := foldTokens_length_side ((accs.drop plen).take slen) t1 tinS s1 (by rw [c2]; simp)
+  rw [← e1] at b1
+  rw [← e2] at b2
+  have n1 : (accs.take plen).length ≤ plen := by simp; omega
+  have n2 : ((accs.drop plen).take slen).length ≤ slen := by simp; omega
+  simp only [maxSteps, maxTokens, List.length_nil] at *
+  omega
+
 /-! non-vacuity: a two-step primary path 10 → 11 → 12 and a one-step secondary path is accepted;
 repeating an account, or a pure market, is not -/
 example : validateAndInit ⟨50, 0, 9, 10, 11, true⟩ 2 1
